@@ -7,6 +7,7 @@ import (
 	"os/exec"
 	"strconv"
 	"strings"
+	"sync/atomic"
 	"time"
 )
 
@@ -23,25 +24,25 @@ func (r Result) String() string { return [...]string{"unsat", "sat", "unknown"}[
 // Solver is one long-lived SMT solver process. Terms are defined once with
 // define-fun at level 0 and referenced by name in queries.
 type Solver struct {
-	Name    string
-	cmd     *exec.Cmd
-	in      io.WriteCloser
-	out     *bufio.Reader
-	ctx     *Ctx
-	defined map[int]bool
+	Name      string
+	cmd       *exec.Cmd
+	in        io.WriteCloser
+	out       *bufio.Reader
+	ctx       *Ctx
+	defined   map[int]bool
 	TimeoutMs int
 	// statistics
-	Queries   int
-	NSat      int
-	NUnsat    int
-	NUnknown  int
-	Time      time.Duration
-	Errors    []string
-	Dump      io.Writer
+	Queries    int
+	NSat       int
+	NUnsat     int
+	NUnknown   int
+	Time       time.Duration
+	Errors     []string
+	Dump       io.Writer
 	sinceReset int
-	argv      []string
-	nameIDs   map[string]int
-	stack     []*Term
+	argv       []string
+	nameIDs    map[string]int
+	stack      []*Term
 }
 
 func solverArgv(name string) []string {
@@ -298,11 +299,19 @@ func (s *Solver) Check(pc []*Term, extra *Term, wantModel bool) (Result, *Model)
 	s.define(extra, &sb)
 	fmt.Fprintf(&sb, "(push 1)\n(assert %s)\n(check-sat)\n", s.ref(extra))
 	s.send(sb.String())
+	// watchdog: a back end that ignores its own time limit is killed and the
+	// query reported unknown (the caller's portfolio then takes over)
+	proc := s.cmd.Process
+	var killed atomic.Bool
+	wd := time.AfterFunc(time.Duration(s.TimeoutMs)*time.Millisecond+10*time.Second, func() { killed.Store(true); proc.Kill() })
+	defer wd.Stop()
 	var ans string
 	for {
 		line, err := s.readLine()
 		if err != nil {
-			s.Errors = append(s.Errors, "solver died: "+err.Error())
+			if !killed.Load() {
+				s.Errors = append(s.Errors, "solver died: "+err.Error())
+			}
 			s.NUnknown++
 			s.restart()
 			return Unknown, nil
